@@ -69,32 +69,7 @@ def counts_rows(m, name):
     return False
 
 
-def dominating_tests(node, stop):
-    """(test, polarity) of every `if` between node and stop whose branch contains node"""
-    out = []
-    cur = node
-    while getattr(cur, '_parent', None) is not None and cur is not stop:
-        par = cur._parent
-        if isinstance(par, ast.If):
-            if any(cur is x for x in par.body):
-                out.append((par.test, True))
-            elif any(cur is x for x in par.orelse):
-                out.append((par.test, False))
-        # statements before it in the same block that leave the block when their test holds: `if T: continue` ... node
-        for fld in ('body', 'orelse', 'finalbody'):
-            blk = getattr(par, fld, None)
-            if isinstance(blk, list) and any(cur is x for x in blk):
-                for prev in blk[:[i for i, x in enumerate(blk) if x is cur][0]]:
-                    if isinstance(prev, ast.If) and not prev.orelse and prev.body and \
-                            isinstance(prev.body[-1], (ast.Continue, ast.Break, ast.Return, ast.Raise)):
-                        out.append((prev.test, False))
-        cur = par
-    res_ = []
-    for t, pol in out:
-        if isinstance(t, ast.UnaryOp) and isinstance(t.op, ast.Not):
-            t, pol = t.operand, not pol
-        res_.append((t, pol))
-    return res_
+from sa.model import dominating_tests  # noqa: E402
 
 
 def enclosing_loops(node, stop):
